@@ -593,6 +593,9 @@ def prebuild(ctx):
     c14_sccp.prebuild(ctx)
     c14c_part.prebuild(ctx)
     c14_pass.prebuild(ctx)
+    from vlib import c14_fixvenom
+    c14_fixvenom.build(ctx)          # C14/WordClosed.vo etc. (C14L/SemProofs.v imports it): never leave that to a race
+    c14l_part.prebuild(ctx)          # again, now that everything it imports exists
     from vlib import c14i_part
     ctx.coq_build_cached(c14i_part.COQ_MODEL, timeout=600)
 
